@@ -378,6 +378,45 @@ def state_sans_time(st: Any) -> str:
     return re.sub(r" F (\d+) (\d+) (\d+) (\d+) (-?\d+) (-?\d+)", r" F \1 \2 \3 \4 t t", " ".join(parts))
 
 
+def _c11_counts(st: Any) -> dict:
+    return {name: (len(ws.queue), len(ws.in_progress), sum(len(v) for v in ws.collected_events.values()), len(ws.collected_waiters))
+            for name, ws in st.workers.items()}
+
+
+def _c11_facet(a: Any, b: Any) -> str:
+    """which part of the run state differs between `a` (expected) and `b` (found): classifies the signature"""
+    if a.is_running != b.is_running:
+        return "running_flag"
+    ca, cb = _c11_counts(a), _c11_counts(b)
+    for i, nm in enumerate(["queue", "in_progress", "collected_events", "waiters"]):
+        da = sum(v[i] for v in ca.values())
+        db = sum(v[i] for v in cb.values())
+        if da != db or any(ca[k][i] != cb.get(k, (0, 0, 0, 0))[i] for k in ca):
+            return nm + ("_removed" if db < da else "_added" if db > da else "_moved")
+    return "content"
+
+
+def _c11_delta(a: Any, b: Any) -> str:
+    ca, cb = _c11_counts(a), _c11_counts(b)
+    ds = [f"step {k}: (queued, in progress, collected, waiters) {ca[k]} -> {cb.get(k)}" for k in ca if ca[k] != cb.get(k)]
+    if a.is_running != b.is_running:
+        ds.append(f"is_running {a.is_running} -> {b.is_running}")
+    return "; ".join(ds[:4]) or "same counts, different content"
+
+
+def _c11_dict_delta(live: dict, got: dict) -> str:
+    ds = []
+    if live.get("is_running") != got.get("is_running"):
+        ds.append(f"is_running engine={live.get('is_running')} to_dict={got.get('is_running')}")
+    for k, w in (live.get("workers") or {}).items():
+        g = (got.get("workers") or {}).get(k) or {}
+        x = (len(w.get("queue", [])), len(w.get("in_progress", [])))
+        y = (len(g.get("queue", [])), len(g.get("in_progress", [])))
+        if x != y:
+            ds.append(f"step {k}: (queued, in progress) engine={x} to_dict={y}")
+    return "; ".join(ds[:4]) or "same counts, different content"
+
+
 def mon_c11(tr: Trace, every: int = 1) -> list[Violation]:
     from workflows.runtime import control_loop as CL
     from . import live
@@ -391,6 +430,18 @@ def mon_c11(tr: Trace, every: int = 1) -> list[Violation]:
     # the state the run was started from is the input of its first reducer call (normally the rewind); a runner that skips the
     # rewind is compared all the same: rebuild_state_from_ticks rewinds on its own
     init = calls[0].before
+    # the live state moves only by reducing ticks that are recorded: what each reduction is handed is what the previous one
+    # returned (else, at the point between the two, the engine held a state that no replay of the log so far reproduces)
+    held = None
+    for n, c in enumerate(calls):
+        if held is not None and c.before is not held:
+            a, b = state_sans_time(held), state_sans_time(c.before)
+            if a != b:
+                out.append(Violation("C11/live_state_changed_without_tick:" + _c11_facet(held, c.before),
+                                     f"after {max(n - 1, 0)} recorded ticks the engine's state was changed outside the reducer, with no tick "
+                                     f"recorded: {_c11_delta(held, c.before)}; the tick log replays to the state before that change", _replay(tr)))
+                break
+        held = c.after if c.error is None else c.before
     if calls[0].kind != "rewind":
         calls = [calls[0]] + calls
     ticks: list = []
@@ -444,6 +495,10 @@ def mon_c11(tr: Trace, every: int = 1) -> list[Violation]:
             return d
         if strip(want) != strip(got):
             out.append(Violation("C11/to_dict_differs_from_live", "ctx.to_dict() of a live handler does not describe the live run state", _replay(tr)))
+        elif snap.get("live") is not None and strip(snap["live"]) != strip(got):
+            # ... nor the state the engine itself held at the moment of the call (read off the runner, not off the reducer's last output)
+            out.append(Violation("C11/to_dict_differs_from_live", "ctx.to_dict() of a live handler does not describe the state the engine "
+                                 "holds at that moment: " + _c11_dict_delta(strip(snap["live"]), strip(got)), _replay(tr)))
     return out
 
 
